@@ -274,6 +274,19 @@ theorem inv4_step (n : Nat) (s s' : Sys) (hreach : Reachable n s) (h : Inv4 n s)
         · rw [hsame]; intro hc; exact ⟨rfl, hc⟩
         · rw [frole]; intro hc; cases hc
       · intro hc; exact ⟨rfl, hc⟩
+  | fsmApply i =>
+    rcases fsmApply_cases n s i with heq | ⟨e, _, heq⟩
+    · rw [heq]; exact h
+    · rw [heq]
+      refine inv4_frame n s _ h rfl rfl (fun x hx => hx) (fun c u li lt hm => hm) ?_
+      intro c; simp only [setNode_nodes]; split
+      · rename_i hj; subst hj; intro hc; exact ⟨rfl, hc⟩
+      · intro hc; exact ⟨rfl, hc⟩
+  | fsmRestore i =>
+    refine inv4_frame n s _ h rfl rfl (fun x hx => hx) (fun c u li lt hm => hm) ?_
+    intro c; simp only [apply, setNode_nodes]; split
+    · rename_i hj; subst hj; intro hc; exact ⟨rfl, hc⟩
+    · intro hc; exact ⟨rfl, hc⟩
   | advanceCommit i k Q =>
     refine inv4_frame n s _ h rfl rfl (fun x hx => hx) (fun c u li lt hm => hm) ?_
     intro c; simp only [apply, setNode_nodes]; split
